@@ -152,11 +152,11 @@ def _same_phi(f, sy, e, depth=0):
                  ([_same_phi(f, sy, y, depth + 1) if isinstance(y, tuple) else y for y in x] if isinstance(x, list) else x) for x in e)
 
 
-def sites(prog, f):
+def sites(prog, f, want_kind="belief"):
     sy = Sym(f)
     out = []
     for kind, e, truth, sp in validate.guards_of(f, sy):
-        if kind == "belief":
+        if kind == want_kind:
             try:
                 e = _same_phi(f, sy, e)
             except Exception:
@@ -165,13 +165,13 @@ def sites(prog, f):
     return sy, out
 
 
-def population(prog, scope=None):
+def population(prog, scope=None, want_kind="belief"):
     pop = {}
     for f in prog.fns:
         if f.derived or (scope is not None and not scope.search(f.path)):
             continue
         try:
-            _, ss = sites(prog, f)
+            _, ss = sites(prog, f, want_kind)
         except RecursionError:
             continue
         for k, e, truth, sp in ss:
@@ -338,7 +338,7 @@ def _by_ranges(f, e, truth, facts=None):
     return "holds for every value of its operands: [%d, %d] %s [%d, %d]" % (ia[0], ia[1], op, ib[0], ib[1]) if ok else None
 
 
-def _discharge(prog, f, sy, e, truth, sp):
+def _discharge(prog, f, sy, e, truth, sp, is_live=False):
     from .features import pair_with_runtime_check
     pb = _block_of(f, sp)
     if pb is None:
@@ -439,7 +439,11 @@ def _discharge(prog, f, sy, e, truth, sp):
     # (d) a release-live assert! of the same function on the same predicate
     for kind, e2, t2, sp2 in validate.guards_of(f, sy):
         if kind == "live" and t2 == truth and validate.closure_canon(prog, e2) == want:
-            return "repeats a release-live assert! of the same function"
+            if sp2 is sp:
+                continue   # the site itself (when a run-time condition is the one being judged)
+            b2 = _block_of(f, sp2)
+            if not is_live or (b2 is not None and any(f.dominates(x, blk) for x in f.live if b2 in f.lsuccs(x))):
+                return "repeats a release-live assert! of the same function"
     # (c) a callee's belief on the operands handed over
     for i, t in f.calls():
         g = prog.get(callee_of(t))
@@ -497,3 +501,54 @@ def census(ctx, prog, scope=None, floor=0):
                    why or "a debug-only belief that is not in the reviewed population and that no run-time check, dominating branch, assert! or callee belief establishes: if it is false for some in-contract input, debug builds panic (and `unsafe` builds are undefined) where the release build answers",
                    f.loc(sp))
     ctx.floor(R, n, floor, "belief sites%s" % ("" if scope is None else " in scope"))
+
+
+_REFA = None
+RA = "SA-ASSERT"
+
+
+def live_census(ctx, prog, scope=None, floor=0):
+    """run-time panic conditions (`assert!`, hand-written `if .. { panic!() }`): every one belongs to the population read on the reviewed
+    tree (function + normal form of the predicate), or is established by a dominating branch / earlier assert / the types of its
+    operands.  A NEW condition that nothing establishes makes an entry point refuse (panic on) inputs that the reviewed tree accepts -
+    for a checked form that is a disagreement with its unchecked twin and with the documented contract."""
+    global _REFA
+    if _REFA is None:
+        try:
+            with open(os.path.join(os.path.dirname(os.path.dirname(os.path.abspath(__file__))), "ref_asserts.json")) as fh:
+                _REFA = json.load(fh)
+        except OSError:
+            _REFA = {}
+    ctx.rule(RA, "run-time panic conditions (assert!, explicit panics behind a test): each is in the population of the reviewed tree (function, normal form of the predicate) or is established by a dominating test / the operand types; a new one narrows what the function accepts")
+    ref = _REFA.get(prog.cfg)
+    if ref is None:
+        ctx.ob(RA, "reference population for configuration %s" % prog.cfg, False, "no reference recorded", "sa/ref_asserts.json")
+        return
+    rx = re.compile(scope) if scope else None
+    n = 0
+    seen = {}
+    for f in prog.fns:
+        if f.derived or (rx is not None and not rx.search(f.path)):
+            continue
+        try:
+            sy, ss = sites(prog, f, "live")
+        except RecursionError:
+            continue
+        if not ss:
+            continue
+        fk = fn_key(f.path)
+        have = seen.setdefault(fk, Counter())
+        for k, e, truth, sp in ss:
+            n += 1
+            have[k] += 1
+            if have[k] <= ref.get(fk, {}).get(k, 0):
+                continue
+            try:
+                why = _discharge(prog, f, sy, e, truth, sp, is_live=True)
+            except Exception:
+                why = None
+            ctx.ob(RA, "%s: run-time panic condition %s%s is reviewed or established" % (f.short, "" if truth else "!", re.sub(r"_\d+\b", "", show(e))[:140]), why is not None,
+                   why or "a run-time panic condition that the reviewed tree does not have in this function and that no dominating test establishes: inputs it refuses were accepted before",
+                   f.loc(sp))
+    ctx.ob(RA, "run-time panic conditions%s are those of the reviewed tree" % ("" if scope is None else " in scope"), True, "%d sites read" % n)
+    ctx.floor(RA, n, floor, "run-time panic condition sites%s" % ("" if scope is None else " in scope"))
